@@ -62,7 +62,7 @@ func layout(t types.Type) []byte {
 		return out
 	case *types.Array:
 		if u.Len() > 64 {
-			unsupp("array too long: %v", t)
+			return []byte{'i'} // opaque: large arrays are never indexed in the verified subset
 		}
 		var out []byte
 		el := layout(u.Elem())
@@ -144,6 +144,9 @@ func unflatten(t types.Type, leaves []string) (Val, []string) {
 		}
 		return sv, rest
 	case *types.Array:
+		if u.Len() > 64 {
+			return IntV{leaves[0]}, leaves[1:]
+		}
 		sv := StructV{}
 		rest := leaves
 		for i := int64(0); i < u.Len(); i++ {
